@@ -60,7 +60,10 @@ def main(argv=None):
     results = run.verify_many(prop.FUNCS, prop.MODS, opts)
 
     known = [k for k in load_known().get('open', [])
-             if k['property'] == pid]
+             if pid in k.get('properties', [k.get('property')])]
+    # a listed finding suppresses its obligation only while its witness
+    # input still fails on the tree under check
+    known = [k for k in known if witness_fails(k)]
     n_obl = n_dis = n_canary = 0
     by_backend = {}
     solver_time = 0.0
@@ -219,6 +222,28 @@ def main(argv=None):
               pid, tier, n_obl, n_dis, known_count, len(violations),
               len(undecided), wall, code))
     return code
+
+
+def witness_fails(k):
+    w = k.get('witness')
+    if not w:
+        return True
+    try:
+        from pyvc import replay
+        if w['kind'] == 'tex2txt-substring':
+            import contextlib
+            import io
+            t2t = replay.real_module('yalafi.tex2txt')
+            with contextlib.redirect_stderr(io.StringIO()):
+                txt, pos = t2t.tex2txt(w['latex'], t2t.Options())
+            return w['substring'] in txt
+        if w['kind'] == 'python':
+            env = {}
+            exec(w['code'], env)
+            return bool(env['fails']())
+    except Exception:
+        return True
+    return True
 
 
 def match_known(known, o):
